@@ -634,6 +634,14 @@ impl Property for C20 {
                     }
                     net.st.disconnect_all(&mut net.server);
                     net.events(ctx)?;
+                    // 'disconnects all connected clients ... sends the disconnect packet instantly': nothing may be left in either layer,
+                    // whatever the message layer had already decided for some of them
+                    if net.st.connected_clients() != 0 || net.server.has_connections() {
+                        return Err(Fail::new(
+                            "disconnect_all_left_sessions",
+                            format!("after disconnect_all the netcode layer still holds {} session(s) and the message layer holds connections: {}", net.st.connected_clients(), net.server.has_connections()),
+                        ));
+                    }
                     Op::DisconnectAll
                 }
                 6 => {
